@@ -179,6 +179,8 @@ def eval_C03(case):
     params = params_of(case)
     flags = case.get("flags")
     b = build_from_recipe(case["recipe"])
+    if _ref(b, case["vals"], params, flags)["singular"]:  # 0/0: NaN is propagated differently by fmax/np.maximum
+        return dict(evals=0, skipped=1)
     try:
         want = numpy_step(b, case["vals"], params, flags)
     except Exception as e:
